@@ -6,16 +6,20 @@ from bounded.common import quiet
 ELS = ['C', 'N', 'O', 'H', 'Zr']
 
 
-def mk(n, terms=True, coeffs=True, extra=True, cell='ortho', seed=0, labels=True, typed=None, kinds=None, xrev=False, long=False):
+def mk(n, terms=True, coeffs=True, extra=True, cell='ortho', seed=0, labels=True, typed=None, kinds=None, xrev=False, long=False, unused=None):
     """Structure with n atoms (n <= 6), a fixed pool of terms restricted to existing atoms, type tables."""
     from mofun import Atoms
     rnd = random.Random(seed * 7919 + n)
     els = [ELS[(i + seed) % 3] for i in range(n)]
     uniq = list(dict.fromkeys(els))
     atom_types = [uniq.index(e) for e in els]
+    if unused is None:
+        unused = (seed % 2 == 1)
+    if unused:
+        uniq = uniq + ['Xe']          # a trailing atom type that no atom uses (e.g. declared in a file, or left over after a deletion)
     pos = [[round(1.3 * i + 0.1 * ((seed + i) % 3), 4), round(0.7 * ((i * i + seed) % 4), 4), round(0.45 * ((i + 2 * seed) % 5), 4)] for i in range(n)]
     kw = dict(atom_types=atom_types, positions=pos, atom_type_elements=uniq,
-              atom_type_masses=[{'C': 12.0107, 'N': 14.0067, 'O': 15.9994, 'H': 1.00794, 'Zr': 91.224}[e] for e in uniq],
+              atom_type_masses=[{'C': 12.0107, 'N': 14.0067, 'O': 15.9994, 'H': 1.00794, 'Zr': 91.224, 'Xe': 131.293}[e] for e in uniq],
               charges=[round(0.1 * i - 0.2, 3) for i in range(n)], groups=[i % 2 for i in range(n)])
     if labels:
         kw['atom_type_labels'] = ["%s_%d" % (e, i) for i, e in enumerate(uniq)]
@@ -35,7 +39,7 @@ def mk(n, terms=True, coeffs=True, extra=True, cell='ortho', seed=0, labels=True
             kw[plural] = ts
             kw[name + '_types'] = [(i + seed) % nt for i in range(len(ts))]
             if coeffs:
-                kw[name + '_type_coeffs'] = ["%s_style %d.5 # %s%d%s" % (name, i + 1, name[0].upper(), i, "  a much longer coefficient comment" if long else "") for i in range(nt)]
+                kw[name + '_type_coeffs'] = ["%s_style %d.5 # %s%d%s" % (name, i + 1, name[0].upper(), i, "  a much longer coefficient comment" if long else "") for i in range(nt + (1 if unused else 0))]
             if extra:
                 kw['extra_%s_labels' % name] = ['_x_%s_a' % name, '_x_%s_b' % name]
                 kw['extra_%s_fields' % name] = [['%s%da' % (name[0], i), '%s%db' % (name[0], i)] for i in range(len(ts))]
@@ -125,3 +129,13 @@ def wf_problems(a):
         if np.ndim(xf) == 2 and np.shape(xf)[1] != len(getattr(a, 'extra_%s_labels' % name)):
             probs.append("extra_%s_fields width %d != %d labels" % (name, np.shape(xf)[1], len(getattr(a, 'extra_%s_labels' % name))))
     return probs
+
+
+def add_unused_type(a, el='Xe', mass=131.293):
+    """Appends an atom type that no atom uses to the type tables of an existing structure (in place)."""
+    a.atom_type_elements = list(a.atom_type_elements) + [el]
+    a.atom_type_masses = np.append(np.asarray(a.atom_type_masses, dtype=float), mass)
+    a.atom_type_labels = list(a.atom_type_labels) + [el]
+    if len(a.pair_coeffs):
+        a.pair_coeffs = list(a.pair_coeffs) + ["lj 9.0 9.0 # %s" % el]
+    return a
